@@ -59,6 +59,10 @@ def gen_chain_cases(chk):
         for a in [None, -90, -180, -270, 360]:
             add("d1_other_angles", [(10, 20, r, a)], allpts)
             add("d1_other_angles", [rnd_offset(rng, "large") + (r, a)], allpts)
+    # (generator audit 2026-10-02) the angle -0.0 (the table's 0 with the sign bit set), alone and inside a chain
+    for r in (False, True):
+        add("d1_negative_zero", [(10, 20, r, -0.0)], allpts)
+        add("d1_negative_zero", [(-3, 5, r, 90), (7, -2, not r, -0.0), (1, 1, r, 270)], allpts)
     # depth 2: all 64 orientation pairs, offsets rotating through the classes
     for i, (o1, o2) in enumerate(itertools.product(ORIENT8, repeat=2)):
         reps = 1 if quick else 6
@@ -150,7 +154,18 @@ def gen_general_cases(chk):
             a = rng.choice(GENERAL_ANGLES) if rng.random() < 0.5 else round(rng.uniform(-360, 360), rng.choice([0, 1, 3]))
             pl.append(rnd_offset(rng) + (rng.random() < 0.5, a))
         add("general_d%d" % d, pl)
+    # (generator audit 2026-10-02) right angles spelled OUTSIDE the table of Gen/LibmGen.v (beyond one turn either way): the float
+    # model takes the implementation's own sin/cos, the 80-digit reference says where the points must land (an exact quarter turn)
+    for k, a in enumerate(RIGHT_ANGLE_SPELLINGS):
+        for r in (False, True):
+            add("right_angle_spelling_d1", [(10, 20, r, a)])
+        add("right_angle_spelling_d1", [rnd_offset(rng, "large") + (k % 2 == 0, a)])
+    for k in range(len(RIGHT_ANGLE_SPELLINGS)):
+        a, b = RIGHT_ANGLE_SPELLINGS[k], RIGHT_ANGLE_SPELLINGS[(k + 5) % len(RIGHT_ANGLE_SPELLINGS)]
+        add("right_angle_spelling_d3", [(3, -4, k % 2 == 0, a), rnd_offset(rng) + (k % 3 == 0, float(rng.choice(TABLE_ANGLES))), (-7, 11, k % 2 == 1, b)])
     return cases, dist
+
+RIGHT_ANGLE_SPELLINGS = [450.0, 540.0, 630.0, 720.0, 810.0, -360.0, -450.0, -540.0, -630.0, -720.0, 3690.0, -3690.0, 36000090.0, -36000270.0]
 
 def rnd_shape(rng):
     def pt():
@@ -206,6 +221,28 @@ def gen_flatten_cases(chk):
         kind = "flatten_d%d%s" % (depth, "_missing_layout" if any(c.get("nolayout") for c in cells) else "")
         cases.append({"op": "flatten", "kind": kind, "cells": cells, "top": len(cells) - 1})
         dist[kind] = dist.get(kind, 0) + 1
+    # (generator audit 2026-10-02) deeper and wider than the random hierarchies: one chain of cells per depth 5..12 (every level places
+    # the level below once or twice, in changing orientations, and has a shape of its own), and cells with 40 instances of one leaf
+    def shp(k):
+        return [["r", [0, 0], [k + 1, 2]], ["p", [[0, 0], [k + 2, 0], [1, k + 3]]], ["w", k % 4, [[0, 0], [5, 0], [5, k + 1]]]][k % 3]
+    for depth in ((5, 8, 12) if quick else range(5, 13)):
+        cells = [{"elems": [{"net": 1, "layer": 0, "purpose": 0, "sh": shp(0)}, {"net": None, "layer": 1, "purpose": 3, "sh": shp(1)}], "insts": []}]
+        for lvl in range(1, depth + 1):
+            r, a = ORIENT8[(3 * lvl + depth) % 8]
+            insts = [{"cell": lvl - 1, "loc": [7 * lvl - 20, 3 - 5 * lvl], "r": r, "a": [a, None][1 if (a == 0 and lvl % 2) else 0]}]
+            if lvl % 4 == 0:
+                insts.append({"cell": lvl - 1, "loc": list(rnd_offset(rng, "large")), "r": not r, "a": rng.choice(TABLE_ANGLES)})
+            cells.append({"elems": [{"net": lvl + 1, "layer": lvl % 3, "purpose": lvl % 4, "sh": shp(lvl)}], "insts": insts})
+        cases.append({"op": "flatten", "kind": "flatten_deep_5_12", "cells": cells, "top": len(cells) - 1})
+        dist["flatten_deep_5_12"] = dist.get("flatten_deep_5_12", 0) + 1
+    for n in (40, 41):
+        leafc = {"elems": [{"net": 1, "layer": 0, "purpose": 0, "sh": shp(n)}, {"net": 2, "layer": 2, "purpose": 1, "sh": shp(n + 1)}], "insts": []}
+        insts = []
+        for k in range(n):
+            r, a = ORIENT8[k % 8]
+            insts.append({"cell": 0, "loc": [13 * k - 200, (k * k) % 97 - 40], "r": r, "a": None if (a == 0 and k % 3 == 0) else a})
+        cases.append({"op": "flatten", "kind": "flatten_wide", "cells": [leafc, {"elems": [], "insts": insts}], "top": 1})
+        dist["flatten_wide"] = dist.get("flatten_wide", 0) + 1
     return cases, dist
 
 def gen_elem_cases(chk):
@@ -356,7 +393,16 @@ def evaluate(chk, cases, tag):
             out[i] = (2, r, "no value from the implementation")   # panic / crash on a transform or chain: must be total
         else:
             items.append(it); idx.append(i)
-    codes = coq_eval_lists(HDR, items, chk.rundir, tag, shard=max(20, len(items) // (NCPU * 3) + 1))
+    # balance the shards (coq_eval_lists cuts consecutive chunks, and the expensive cases -- long chains -- are generated next to each
+    # other): deal the items out round-robin by decreasing size of their term, evaluate, put the answers back in order
+    nsh = max(1, min(NCPU * 2, -(-len(items) // 8)))
+    shard = -(-len(items) // nsh)
+    by_size = sorted(range(len(items)), key=lambda k: -len(items[k]))
+    order = [by_size[j] for sh in range(nsh) for j in range(sh, len(by_size), nsh)]
+    got = coq_eval_lists(HDR, [items[k] for k in order], chk.rundir, tag, shard=shard)
+    codes = [None] * len(items)
+    for k, s in zip(order, got):
+        codes[k] = s
     for i, s in zip(idx, codes):
         code = parse_z(s)
         why = ""
